@@ -9,6 +9,7 @@ bootstrap.ensure()
 
 ID = "C08"
 LEVEL = "exploration"
+TECHNIQUE = "runtime monitoring: exception-phase oracle over generated well-typed programs (plain SQLite grammar)"
 RULE = (
     "seeded random well-typed programs in either engine, weighted towards joins/chains of arbitrarily built operands "
     "(nested chains, chains of joins, joins of chains) and towards sorts followed by projections, chains and "
